@@ -159,6 +159,9 @@ CHECKS["C05"] = {
         H("cff", ["c05.go", "t2ref.go"], "VerifH_C05_stack", ["interpreted"], quick={"timeout": 280}),
         H("cff", ["c05.go", "t2ref.go"], "VerifH_C05_subr", ["called"], quick={"timeout": 280}),
         H("cff", ["c05.go", "t2ref.go"], "VerifH_C05_depth", ["done"], quick={"timeout": 100}),
+        H("cff", ["c05.go", "t2ref.go"], "VerifH_C05_recursion", ["done"], quick={"timeout": 200}),
+        H("cff", ["c05.go", "t2ref.go"], "VerifH_C05_storage", ["interpreted"], quick={"timeout": 200}),
+        H("cff", "c13.go", "VerifH_C13_index", ["read"], quick={"params": {"maxcount": 3}, "timeout": 200}),
         H("cff", ["c05.go", "t2ref.go"], "VerifH_C05_fault", ["done"], quick={"timeout": 200}),
         H("cff", ["c05.go", "t2ref.go"], "VerifH_C05_bytes", ["accepted"], quick={"params": {"maxlen": 3}, "timeout": 280}, thorough={"params": {"maxlen": 5}, "timeout": 2400}),
     ],
@@ -195,6 +198,7 @@ CHECKS["C02"] = {
         H("cff", ["c02.go", "c13.go"], "VerifH_C02_cffreaders", ["index", "charset", "fdselect", "private"], quick={"params": {"maxlen": 4, "privfile": 2}, "timeout": 280, "shards": 4}, thorough={"params": {"maxlen": 8, "privfile": 12}, "timeout": 2400, "shards": 4}),
         H("cff", ["c05.go", "t2ref.go"], "VerifH_C05_bytes", ["accepted"], quick={"params": {"maxlen": 3}, "timeout": 280}, thorough={"params": {"maxlen": 5}, "timeout": 2400}),
         H("cff", "c13.go", "VerifH_C13_dict_bytes", ["accepted"], quick={"params": {"maxlen": 2}, "timeout": 280}, thorough={"params": {"maxlen": 3}, "timeout": 2400}),
+        H("cff", ["c05.go", "t2ref.go"], "VerifH_C05_recursion", ["done"], quick={"timeout": 200}),
         H("glyf", "c11.go", "VerifH_C11_fixpoint", ["accepted", "simple", "composite"], quick={"params": {"bytes": 16}, "timeout": 240}, thorough={"params": {"bytes": 24}, "timeout": 1500}),
         H("glyf", "c11.go", "VerifH_C11_spec", ["accepted", "points"], quick={"params": {"maxextra": 5, "maxpts": 3}, "timeout": 240}, thorough={"params": {"maxextra": 8, "maxpts": 5}, "timeout": 1500}),
         H("hmtx", "c12.go", "VerifH_C12_hmtx_bytes", ["accepted"], quick={"params": {"maxhmtx": 8}, "timeout": 280}),
@@ -244,6 +248,7 @@ CHECKS["C06"] = {
         H("opentype/gtab", _S, "VerifH_C06_pairclass", ["applied"], quick={"params": {"maxlen": 2}, "timeout": 280}, thorough={"params": {"maxlen": 3}, "timeout": 2400}),
         H("opentype/gtab", _S, "VerifH_C06_context", ["applied"], quick={"params": {"maxlen": 2}, "timeout": 280}, thorough={"params": {"maxlen": 3}, "timeout": 2400}),
         H("opentype/gtab", _S7, "VerifH_C07_scratch", ["applied"], quick={"timeout": 280, "shards": 6}),
+        H("opentype/gtab", _S, "VerifH_C06_markbase", ["applied"], quick={"timeout": 280}),
         H("opentype/gtab", _S, "VerifH_C06_chained", ["applied"], quick={"params": {"maxlen": 2}, "timeout": 280, "shards": 4}, thorough={"params": {"maxlen": 3}, "timeout": 2400, "shards": 4}),
     ],
     "bounds": {"quick": "lookup lists of concrete shape (GSUB 1.1, 1.2, 2.1 (+ a second lookup in 3 orders), 3.1, 4.1 with two competing ligatures, GPOS 1.1, 2.1 and 2.2 (class pairs, class values up to and beyond the matrix size) with/without second record, sequence context 5.1 with nested single substitutions) with symbolic replacement ids / value records / nested action indices; lookup flags symbolic over ignore-base/ligature/marks, mark filtering set and mark attachment type 0..2; GDEF class, mark attachment class and mark-set membership of one alphabet glyph symbolic; glyph sequences of length 1..3 [2..3 for ligature/pair/context] with symbolic ids over a 4-glyph alphabet",
@@ -260,6 +265,7 @@ CHECKS["C07"] = {
         H("opentype/gtab", _S7, "VerifH_C07_history", ["applied"], quick={"timeout": 280, "shards": 4}),
         H("opentype/gtab", _S7, "VerifH_C07_term", ["terminated"], quick={"timeout": 280}),
         H("opentype/gtab", _S7, "VerifH_C07_scratch", ["applied"], quick={"timeout": 280, "shards": 6}),
+        H("opentype/gtab", _S7, "VerifH_C07_gposmut", ["accepted", "rejected"], quick={"timeout": 280, "shards": 7}),
         H("opentype/gtab", _S7, "VerifH_C06_ligature", ["applied"], quick={"params": {"maxlen": 2}, "timeout": 280}),
         H("opentype/gtab", _S7, "VerifH_C06_multiple", ["applied"], quick={"params": {"maxlen": 2}, "timeout": 280}),
         H("opentype/gtab", _S7, "VerifH_C06_pairclass", ["applied"], quick={"params": {"maxlen": 2}, "timeout": 280}),
@@ -352,11 +358,12 @@ CHECKS["C19"] = {
         H("opentype/gtab/builder", _B, "VerifH_C19_templates", ["done"], quick={"timeout": 100}),
         H("opentype/gtab/builder", _B, "VerifH_C19_roundtrip", ["done"], quick={"params": {"fonts": 2, "maxgid": 3, "vrfields": 1}, "timeout": 280, "shards": 10},
           thorough={"params": {"fonts": 4, "maxgid": 7}, "timeout": 3000, "shards": 10}),
+        H("opentype/gtab/builder", _B, "VerifH_C19_sched", ["done"], quick={"params": {"preemptions": 2}, "timeout": 280, "shards": 3}, thorough={"params": {"preemptions": 4}, "timeout": 3000, "shards": 3}),
         H("opentype/gtab/builder", _B, "VerifH_C19_text", ["accepted", "rejected"], quick={"params": {"window": 1}, "timeout": 280, "shards": 12},
           thorough={"params": {"window": 2}, "timeout": 3000, "shards": 12}),
     ],
     "level_text": "Bounded symbolic execution of builder.Parse / ExplainGsub / ExplainGpos including the lexer, string-decoder and parser goroutines: the engine runs interpreted goroutines with a channel model (unbuffered and buffered channels, close, range), reports 'all goroutines are asleep' as a deadlock, a panic in any goroutine as a crash and goroutines that can never finish as leaks.  Texts are valid descriptions with a window of arbitrary bytes; lookup lists have concrete shape with symbolic flags, glyph ids, value records and nested actions.",
-    "bounds": {"quick": "12 valid descriptions (GSUB 1-6, GPOS 1-4, all subtable alternatives the language has syntax for) with every window of 1 arbitrary ASCII byte [thorough: 2 bytes] at every position, over a font of 8 named and mapped glyphs; round trip Parse(Explain(L)) == L for 10 lookup kinds (GSUB 1.1/1.2/2.1/3.1/4.1 with two ligatures, context 5.1, chained context 6.3, GPOS 1.1/1.2/2.1) with all 8 subsets of the ignore flags, glyph ids symbolic in 1..3 [1..7 thorough], value records (nil or not) with one field over all of int16 and two fields present/absent [thorough: all three over int16], nested action indices symbolic uint16, over 2 fonts (named and mapped / neither) [thorough: all 4 combinations]; goroutine schedule: deterministic (run until blocked) in these harnesses",
+    "bounds": {"quick": "12 valid descriptions (GSUB 1-6, GPOS 1-4, all subtable alternatives the language has syntax for) with every window of 1 arbitrary ASCII byte [thorough: 2 bytes] at every position, over a font of 8 named and mapped glyphs; round trip Parse(Explain(L)) == L for 10 lookup kinds (GSUB 1.1/1.2/2.1/3.1/4.1 with two ligatures, context 5.1, chained context 6.3, GPOS 1.1/1.2/2.1) with all 8 subsets of the ignore flags, glyph ids symbolic in 1..3 [1..7 thorough], value records (nil or not) with one field over all of int16 and two fields present/absent [thorough: all three over int16], nested action indices symbolic uint16, over 2 fonts (named and mapped / neither) [thorough: all 4 combinations]; goroutine schedule: deterministic (run until blocked) in these harnesses; all interleavings of the lexer and parser goroutines at channel-operation granularity with at most 2 [thorough: 4] preemptive context switches for 3 short descriptions (12..17 bytes, up to 8 tokens, one of them over two lines) with one arbitrary ASCII byte at any position",
                "thorough": "window of 2 bytes"},
     "outside": ["texts further than a 2-byte window from the 12 templates (random / grammar-derived texts)", "non-ASCII bytes in the window unless param ascii=0", "GPOS 2.2/3/4 and class based contexts in the symbolic round trip (covered by the concrete templates only)", "real OS-thread interleavings (GOMAXPROCS): goroutines are interleaved at channel operations", "numbers with more than 18 digits"],
     "assumptions": ["goroutines communicate through channels only (interleaving at channel operations is then exhaustive)", "lookup lists in the normal form the parser produces (coverage order, value record nil iff all zero)"],
